@@ -258,7 +258,7 @@ theorem position_full (a : Ascii) (off : Nat) (hb : a.linebased = false) (hr : a
     exact ⟨rfl, rfl⟩
   have hlive : Sim.Live (position a off).1 := by unfold Sim.Live; omega
   have htok : Track.Ok (position a off).1.trk := by
-    rw [hrest.1]; exact ⟨by simp [Track.reset], by simp [Track.reset]⟩
+    rw [hrest.1]; exact Track.Ok.of_inactive _ (by simp [Track.reset]) (by simp [Track.reset]) (Or.inl (by simp [Track.reset]))
   refine ⟨hst, ⟨hwf, Or.inl hlive, htok⟩, hlive, ?_, hrest.2, hB'⟩
   unfold fileFrom
   rw [hfile]
